@@ -8,6 +8,8 @@ import DateutilVerif.Properties.C18
 #print axioms C18.strong_within_capacity
 #print axioms C18.lock_discipline
 #print axioms C18.no_deadlock
+#print axioms C18.always_returns_partial
+#print axioms C18.singleton_unique_partial
 #print axioms C18.eq_refl
 #print axioms C18.eq_symm
 #print axioms C18.copy_equal
